@@ -56,7 +56,7 @@ CLAIMED = {
    text="Every unordered pair of exported calls (incl. a call with itself) on a shared instance of every limit, strategy, partition, limiter, measurement and registry type — incl. started registries and whole limiter stacks reporting to one, with the poll tick firing at any point — runs as two threads; all interleavings within the preemption bound are enumerated and every execution is monitored by the race detector; calibration scenarios prove on every run that the monitor is neither blinded nor triggered by the scheduler.",
    ref="DESIGN 7 C17", note="pairs of calls (triples in the thorough tier); reports are deduplicated per process by the detector; vrt is //go:norace and adds no happens-before edge of its own"),
  "C18": dict(technique=T_S + " with twin probes after Reset + " + T_T + " for Add racing Update",
-   text="Add/Get/Reset/Update sequences for every measurement type against reference folds; after every Reset the instance and a new one are driven with every continuation of length <= 3 and must agree; sample-window summaries checked for every permutation; Add racing Update(identity) and Get on Minimum/Single/ExponentialAverage must leave exactly what the same samples give sequentially (twin instance).",
+   text="Add/Get/Reset/Update sequences for every measurement type against reference folds; after every Reset the instance and a new one are driven with every continuation of length <= 3 and must agree; sample-window summaries checked for every permutation; Add racing Update(identity) and Get on Minimum/Single/ExponentialAverage must leave exactly what the same samples give sequentially (twin instance), and two racing Adds on every measurement type what they give in one of the two orders.",
    ref="DESIGN 7 C18", note="depth 6 (quick) / 8 (thorough)"),
  "C19": dict(technique=T_T + "; lazy virtual clock",
    text="N > limit callers on fixed and generic pools (all orderings): holders never exceed the limit, everybody is granted with no virtual time elapsing (with 300 ms hold times: the k-th grant exactly when the (k-limit)-th holder releases), also on a pool whose sampling window closes during one of the releases, and with exactly limit+backlog callers; nobody is parked while a slot is free.",
